@@ -3,7 +3,7 @@
 // search drivers (F). Spec functions: crate::matchers::__verif::spec (written from ECMA-262, not from this code).
 // GENERATED PARTS: the e2_bt_byteseq* harnesses are emitted by contracts/gen/gen.py (static text, committed).
 #[cfg(kani)]
-mod __verif {
+pub(crate) mod __verif {
     use super::*;
     use crate::api::Flags;
     use crate::insn::StartPredicate;
